@@ -97,7 +97,10 @@ class Harness:
         constructor (the representation invariant assumed for it is what the unit states)."""
         c = self.cls(fq)
         o = Obj(c)
+        partial = attrs.pop('_partial', False)
         o.attrs.update(attrs)
+        if partial:
+            o.attrs['__partial__'] = True
         return o
 
     def construct(self, fq, *args, **kw):
